@@ -21,7 +21,9 @@
 static unsigned long vp_kmask[KNR / 64];
 static int vp_setaff_calls, vp_getaff_calls; static size_t vp_last_setsize;
 #ifdef VP_CBMC
-cpu_set_t *__sched_cpualloc(size_t count) { return malloc(CPU_ALLOC_SIZE(count)); }
+/* a fixed 32-byte block whatever the count (a block of symbolic size is an array-theory object: no verdict); the
+ * CPU_*_S macros bound every access by the setsize argument themselves, and the kernel model only reads setsize bytes */
+cpu_set_t *__sched_cpualloc(size_t count) { __CPROVER_assert(CPU_ALLOC_SIZE(count) <= 32, "VP_MODEL: cpu_set_t larger than the model's 256 CPUs"); unsigned long *p = malloc(4 * sizeof(unsigned long)); __CPROVER_assume(p != 0); return (cpu_set_t *) p; }
 void __sched_cpufree(cpu_set_t *set) { free(set); }
 int sched_getaffinity(pid_t pid, size_t setsize, cpu_set_t *set)
 {
@@ -108,13 +110,19 @@ VP_HARNESS(h_linux_get)
   VP_WITNESS_IF(!hc, "topology not ready yet: kernel size used");
 }
 
+#ifndef NCPU
+#define NCPU 3
+#endif
 /* set then get through the kernel model */
 VP_HARNESS(h_linux_roundtrip)
 {
   unsigned long cw0 = vp_in64(), cw1 = vp_in64();
   struct hwloc_topology *t = mk_topo(cw0, cw1, 1);
-  unsigned long s0 = vp_in64(), s1 = vp_in64();
-  VP_ASSUME((s0 | s1) != 0 && !(s0 & ~cw0) && !(s1 & ~cw1));      /* what the generic layer lets through: non-empty, inside the complete cpuset */
+  /* the set: NCPU symbolic CPU numbers below 128 (possibly equal). The hook walks the set with hwloc_bitmap_next, once
+   * per CPU: the number of CPUs is the loop bound, checked by the unwinding assertion */
+  unsigned long s0 = 0, s1 = 0;
+  for (unsigned i = 0; i < NCPU; i++) { unsigned c = (unsigned) vp_in_range(0, 127); if (c < 64) s0 |= 1UL << c; else s1 |= 1UL << (c - 64); }
+  VP_ASSUME(!(s0 & ~cw0) && !(s1 & ~cw1));      /* what the generic layer lets through: non-empty, inside the complete cpuset */
   hwloc_bitmap_t set = hwloc_bitmap_alloc(); VP_NONNULL(set);
   hwloc_bitmap_set_ith_ulong(set, 0, s0); hwloc_bitmap_set_ith_ulong(set, 1, s1);
   vp_kmask[0] = vp_in64(); vp_kmask[1] = vp_in64();
@@ -125,5 +133,5 @@ VP_HARNESS(h_linux_roundtrip)
   hwloc_bitmap_t out = hwloc_bitmap_alloc_full(); VP_NONNULL(out);
   r = hwloc_linux_get_tid_cpubind(t, 0, out);
   VP_CHECK(r == 0 && hwloc_bitmap_isequal(out, set), "bind then read back returns the bound set");
-  VP_WITNESS_IF(s1 == 1UL << 63 && s0 == 1, "CPUs 0 and 127");
+  VP_WITNESS_IF(s1 == 1UL << 63 && (s0 & 1), "CPUs 0 and 127 bound together");
 }
